@@ -120,9 +120,20 @@ def cross_field_doc(rng):
         slen = rng.randint(2, 9)
         p = rng.choice([slen, slen - 1, slen + 1, 0])
         seq = rng.choice(["*", G.rseq(rng, slen)])
-        rt = rng.choice(["E", "F"])
+        rt = rng.choice(["E", "E", "F"])
         if rt == "E":
-            return ["S\tA\t%d\t%s" % (slen, seq), "S\tB\t10\t*", "E\t*\tA+\tB-\t0\t%d$\t0\t10$\t*" % p]
+            # the '$' in question on either side of the edge, the other segment with or without sequence
+            olen = rng.randint(2, 12)
+            oseq = rng.choice(["*", G.rseq(rng, olen)])
+            a = "S\tA\t%d\t%s" % (slen, seq)
+            b = "S\tB\t%d\t%s" % (olen, oseq)
+            if rng.random() < 0.5:
+                e = "E\t*\tA+\tB-\t0\t%d$\t0\t%d$\t*" % (p, olen)
+            else:
+                e = "E\t*\tB%s\tA%s\t0\t%d$\t0\t%d$\t*" % (rng.choice("+-"), rng.choice("+-"), olen, p)
+            out = [a, b, e]
+            rng.shuffle(out)
+            return out
         return ["S\tA\t%d\t%s" % (slen, seq), "F\tA\tr+\t0\t%d$\t0\t5\t*" % p]
     if k == 4:      # undefined references
         v = rng.choice(["gfa1", "gfa2"])
